@@ -607,7 +607,8 @@ def _walker(ctx, src_exprs):
                 (ctx.passed if is_err(p.ret) else ctx.fail)("C08: a collision ends the walk with an error", str(names[-5:]))
                 continue
             if not kind:
-                if not any(is_errev(e) for e in sev) and not errup:
+                gone = any(e.ret == "absent" for e in sev) and p.status == "return" and is_err(p.ret)    # lstat: ENOENT, the walk fails
+                if not any(is_errev(e) for e in sev) and not errup and not gone:
                     ctx.fail("C02: no walked entry is silently skipped (every entry is classified and acted upon, or the walk fails)",
                              "entry %r: %s" % (seg["expr"], [e.name for e in sev]))
                 continue
